@@ -511,7 +511,10 @@ def check_C08(tr):
                                "K-crowded-rejoin" if nsides >= 3 else None)) if had_row else None
             continue
         if [x["type"] for x in st.frames(c)] != ["ack", "closed"] or st.internal():
-            out.append(Finding("C08", "close completes and is answered closed", st.i, {"events": st.raw_events}))
+            known = None
+            if [x["cls"] for x in st.internal()] == ["IntegrityError"] and any(r[1] == mb and r[0] != b[0] for r in st.pre.mailboxes):
+                known = "K-global-mailbox-id"      # the id exists under another app
+            out.append(Finding("C08", "close completes and is answered closed", st.i, {"events": st.raw_events}, known))
             continue
         others_open = [s for s in st.post.mb_sides if s[0] == mb and s[1]]
         if (b[0], mb) in post_ids:
